@@ -1,6 +1,6 @@
 """Growth beyond the listed properties (DESIGN.md section 11): specifications of further behaviour of the library,
 model-checked and replayed into the code like the property checks, but *not* registered in MANIFEST.json (no
-listed property owns their verdicts).  usage: python -m harness.growth [lifecycle] [chainqueries] [amptree]"""
+listed property owns their verdicts).  usage: python -m harness.growth [lifecycle] [chainqueries] [amptree] [decwarnings]"""
 from __future__ import annotations
 
 import io
@@ -356,9 +356,111 @@ def amptree(sample=2500):
     return rc
 
 
+# ---------------------------------------------------------------------------------------------- DecWarnings
+def _classify_warning(msg):
+    """-> (class, [names]) for the diagnostics of parse()"""
+    import re
+    m = re.search(r"redefined in the input \.dec file with 'Decay': (.*)!\nAll but", msg, re.S)
+    if m:
+        return "redefined", m.group(1).split(", ")
+    m = re.search(r"'CopyDecay' statement\(s\) of following particle\(s\) not found:\n(.*)\.\nSkipping", msg, re.S)
+    if m:
+        return "copymiss", m.group(1).split("\n")
+    m = re.search(r"with both 'Decay' and 'CDecay': (.*)!\nThe 'CDecay'", msg, re.S)
+    if m:
+        return "both", m.group(1).split(", ")
+    m = re.search(r"'CDecay' statement\(s\) of following particle\(s\) not found:\n(.*)\.\nSkipping", msg, re.S)
+    if m:
+        return "conjmiss", m.group(1).split("\n")
+    if "self-conjugate particle" in msg:
+        return "selfconj", []
+    return "other", [msg[:120]]
+
+
+def _warn_case(args):
+    import random
+    from . import decio
+    cid, src, base, incl, seed = args
+    cz = decio.Concretiser(random.Random(seed), base=base, conj_matters=True)
+    text = decio.render_file(cz, src)
+    p, err, warns = decio.parse_text(text, incl)
+    obs = {"fails": p is None, "redefined": [], "copymiss": [], "both": [], "conjmiss": [], "other": [], "selfconj": 0}
+    for w in warns:
+        k, names = _classify_warning(w)
+        if k == "selfconj":
+            obs["selfconj"] += 1
+        elif k == "other":
+            obs["other"] += names
+        else:
+            obs[k] += [cz.rname(n) for n in names]
+    return {"src": src, "base": base, "incl": incl, "obs": obs, "text": text, "warnings": warns}
+
+
+def decwarnings(sim=600):
+    """parse() diagnostics: lemma NothingDroppedSilently on the DecGen universes, recorded warnings judged by DecWarnings.tla"""
+    import random
+    ensure_repo_on_path()
+    from .core import pmap, Outcome
+    from . import decfam, decrand
+    wd = tlc.new_workdir("warn")
+    rc = 0
+    try:
+        files = []
+        for profile, ms, ml in (("C03", 3, 1), ("C01", 3, 1)):
+            cfg = tlc.cfg_text(constants=dict(Profile=profile, MaxStmts=ms, MaxLines=ml, DoEmit=True, Build=False),
+                               invariants=["NothingDroppedSilently"])
+            r = tlc.run("DecGen", cfg, workdir=wd, timeout=1800)
+            got = [x["v"] for x in r.by_tag("case")]
+            print(f"DecGen {profile} stmts<={ms}: {r.distinct} states, {len(got)} files, NothingDroppedSilently violated={r.violated}")
+            if r.violated:
+                rc = 1
+            files += got
+        dummy = Outcome("G", "quick", 1)
+        files += decfam.tlc_files("C03", 9, 2, wd, dummy, check=False, simulate=sim, seed=1)
+        rng = random.Random(1)
+        if len(files) > 6000:
+            files = rng.sample(files, 6000)
+        specs = [(f["src"], f["base"], f["incl"]) for f in files]
+        # longer random files over real EvtGen names (the C03 / C08 generators)
+        for i in range(300):
+            specs.append(decrand.gen_c03(rng, big=(i % 2 == 0)))
+        cases = pmap(_warn_case, [(i, s, b, inc, 17 * i + 3) for i, (s, b, inc) in enumerate(specs)])
+        tf = wd / "trace.json"
+        tf.write_text(json.dumps([{k: v for k, v in c.items() if k not in ("text", "warnings")} for c in cases]))
+        rj = tlc.run("DecWarnings", tlc.cfg_text(), workdir=wd, env={"TRACE_FILE": str(tf)}, timeout=3000)
+        acc = {x["tid"] for x in rj.by_tag("ACCEPT")}
+        rej = {x["tid"] for x in rj.by_tag("REJECT")}
+        if acc | rej != set(range(1, len(cases) + 1)) or acc & rej:
+            print(f"  MACHINERY: verdicts not total ({rj.stdout_path})")
+            return 2
+        seen = {k: sum(1 for c in cases if c["obs"][k]) for k in ("redefined", "copymiss", "both", "conjmiss", "selfconj")}
+        print(f"decwarnings: {len(cases)} files replayed, {len(rej)} rejected; files with a warning of each class: {seen}")
+        fails = {}
+        for x in rj.by_tag("FAIL"):
+            fails.setdefault(x["tid"], []).append(x)
+        for t in sorted(rej)[:5]:
+            print("  DISAGREEMENT", json.dumps({"clauses": [f["clause"] for f in fails.get(t, [])], "diag": fails.get(t, [{}])[0].get("diag"),
+                                                 "text": cases[t - 1]["text"], "warnings": cases[t - 1]["warnings"]})[:1800])
+        if rej:
+            rc = 1
+        good = next((c for i, c in enumerate(cases) if (i + 1) in acc and c["obs"]["conjmiss"]), None)
+        if good:
+            m = json.loads(json.dumps({k: v for k, v in good.items() if k not in ("text", "warnings")}))
+            m["obs"]["conjmiss"] = []
+            tf.write_text(json.dumps([m]))
+            rs = tlc.run("DecWarnings", tlc.cfg_text(), workdir=wd, env={"TRACE_FILE": str(tf)})
+            if not rs.by_tag("REJECT"):
+                print("  MACHINERY: dropped warning accepted")
+                return 2
+            print("  binding self test: dropped warning rejected")
+    finally:
+        tlc.cleanup(wd)
+    return rc
+
+
 if __name__ == "__main__":
-    which = sys.argv[1:] or ["lifecycle", "chainqueries", "amptree"]
+    which = sys.argv[1:] or ["lifecycle", "chainqueries", "amptree", "decwarnings"]
     rc = 0
     for w in which:
-        rc |= {"lifecycle": lifecycle, "chainqueries": chainqueries, "amptree": amptree}[w]()
+        rc |= {"lifecycle": lifecycle, "chainqueries": chainqueries, "amptree": amptree, "decwarnings": decwarnings}[w]()
     sys.exit(rc)
